@@ -31,9 +31,13 @@ def run(tier, seed):
         traces += t_
     tp = os.path.join(vlib.workdir("c05-chains"), "traces.ndjson")
     caps = {h["id"]: hist.chain_cap(h) for h in hs}
-    for t in traces:
+    slim = []
+    for t in traces:        # the stabilisation judgement only reads the answers of the inclusion tests: drop the observations
         t["cap"] = caps[t["id"]]
-    vlib.write_ndjson(tp, traces)
+        q = {k: v for k, v in t.items() if k != "obs"}
+        q["obs"] = [{"dom": o["dom"], "err": o["err"], "steps": [{"ans": x["ans"]} for x in o["steps"]]} for o in t["obs"]]
+        slim.append(q)
+    vlib.write_ndjson(tp, slim)
     r = tlc("WidenChain", "WidenChain", "c05-chainjudge", env={"DOM_TRACES": tp, "CHAIN_CAP": CAP, "CHAIN_TAIL": TAIL}, cont=True)
     ck.add_tlc(r, "WidenChain")
     # long chains (longer than any legitimate number of relaxations): only the stabilisation judgement
